@@ -132,6 +132,11 @@ P = {
     "C14.a": "obligation O1: attribute-method instrumentation of user classes is restored on every exit of every load for every model under construction; no release without acquire",
     "C14.c": "the tuple of dunder names restored covers the tuple replaced",
     "C14.d": "__init__ called once per created instance with kwargs filtered to grammar attributes, after restore and before processors",
+    "C14.e": "on every normal path through parse_tree_to_objgraph the parser is handed over to the model or the user classes are restored at once (immutable models)",
+    "C14.f": "cleanup-and-reraise handlers that restore the user classes are catch-all (KeyboardInterrupt/SystemExit abort a load too)",
+    "C13.a": "(shared with C13) user __init__ of every model runs before any object processor",
+    "C15.c": "(shared with C15) handlers releasing the per-object storage are catch-all", "C15.d": "(shared with C15) the storage release has no guard other than the ids recorded at creation",
+    "C15.e": "(shared with C15) the id is recorded immediately when the storage is created", "C15.f": "(shared with C15) the handler protecting the end of construction discharges for every model",
   },
   declined="garbage-collectability in general, 'same as a fresh metamodel'",
   technique="obligation ledger over normal + exceptional CFG exits through the call graph"),
@@ -139,12 +144,21 @@ P = {
   decided={
     "C15.a": "obligation O1 (instrumentation) discharged on every failure exit",
     "C15.b": "obligation O2: per-object attribute storage on user classes released on every failure exit",
+    "C15.c": "handlers that release the per-object storage are catch-all",
+    "C15.d": "_release_user_obj_attrs has no exit or guard depending on state other than the ids recorded at creation",
+    "C15.e": "the id of a user object is recorded immediately when its storage is created (no may-raise statement in between)",
+    "C15.f": "the handler that protects the end of the construction discharges for every model of the attempt (no filter on the already deleted marker); the marker is tested for existence",
+    "C15.g": "ModelRepository.remove_model locates the entry by the stored model, not by a key recomputed from the model",
+    "C14.a": "(shared with C14) instrumentation restored on every exit", "C14.e": "(shared with C14) immutable-model path restores directly", "C14.f": "(shared with C14) restoring handlers are catch-all",
+    "C18.c": "(shared with C18) handlers removing models are catch-all", "C18.d": "(shared with C18) inner handler removes every model of the attempt", "C18.f": "(shared with C18) remove_model scans the store",
   },
   declined="absence of leaks through tracebacks/user code; equality with a fresh metamodel",
   technique="obligation ledger over exceptional CFG exits through the call graph"),
 "C16": dict(
   decided={
     "C16.a": "every load obtains its parser by cloning the blueprint; clone() re-initialises every mutable container __init__ creates (writer/reader table agreement, copy.copy is shallow)",
+    "C16.c": "a value stored in a process-wide (module- or class-level) cache is keyed by everything it was computed from (per-(cache,input) exceptions with a reason)",
+    "C16.b": "models under construction are recognised by the existence of the marker (its value starts as None), so a failed import evicts the half-built importer",
   },
   declined="harmlessness of state that is shared on purpose (module-level base-type rules, parser cache, memo tables) — no sound 'no shared writes' shape rule without false alarms",
   technique="who-may-call check + __init__/clone container table agreement"),
@@ -162,6 +176,11 @@ P = {
   decided={
     "C18.a": "obligation O3: from each registration of a model in a repository, every may-raise statement up to the public entry lies under a handler that removes the models of this attempt from both repositories",
     "C18.b": "only models carrying the construction marker are removed (earlier cached models stay)",
+    "C18.c": "cleanup-and-reraise handlers that remove models are catch-all",
+    "C18.d": "the handler protecting the object processors removes every model of the attempt, not only those that still carry the marker",
+    "C18.e": "the construction marker is tested for existence, not for its value",
+    "C18.f": "ModelRepository.remove_model locates the entry by the stored model (string-loaded models live under synthetic keys)",
+    "C18.g": "per-load snapshots used by failure handlers are frame-local (loads nest through imports)",
   },
   declined="'the next load succeeds with correct identities'",
   technique="obligation ledger over exceptional CFG exits through the call graph"),
@@ -169,16 +188,19 @@ P = {
   decided={
     "C19.a": "every site that installs a parser-context-changing attribute (ws/skipws/eolterm) on an expression while arpeggio's packrat key is the position only",
     "C19.b": "the memoization option is forwarded unchanged to the model parser",
+    "C19.c": "no process-wide cache shares an object built for one memoization setting with another",
   },
   declined="equality of models / error positions in general",
   technique="cache-key vs. dynamic-context rule, instances enumerated from lang.py and the Arpeggio source"),
 "C20": dict(
   decided={"C20.a": "every Match construction in the grammar visitor passes ignore_case derived from metamodel.ignore_case",
+           "C20.c": "no process-wide cache holds an object built with ignore_case under a key that omits it",
            "C20.b": "the ignore_case option of the metamodel is forwarded to the model parser under its own name"},
   declined="that case mutation never changes acceptance; value case preservation (Arpeggio terminals)",
   technique="must-pass keyword-argument rule with alias expansion over all Match constructions"),
 "C21": dict(
   decided={"C21.a": "keyword classification regex is the identifier class; keyword branch only on a full match; emitted regex ends in \\b; non-keyword path builds the same StrMatch",
+           "C21.c": "no process-wide cache holds an object built with autokwd under a key that omits it",
            "C21.b": "the autokwd option of the metamodel is forwarded to the model parser under its own name"},
   declined="model equality with/without autokwd for all inputs",
   technique="regex category algebra + guard analysis on the RegExMatch construction"),
@@ -204,6 +226,7 @@ P = {
   decided={
     "C24.a": "structural agreement of the PEG extracted from lang.py/rrel.py and the PEG read from textx.tx, modulo a stated normal form and a reasoned equivalence table",
     "C24.b": "terminal vocabulary agreement",
+    "C24.c": "the cached grammar parser is built from nothing that is missing from its cache key (it must not inherit a metamodel's ignore_case etc.)",
   },
   declined="language equality beyond structure (undecidable in general); the model shape grammar_model_from_str yields",
   technique="PEG extraction from two notations + normal form + co-inductive structural diff"),
@@ -258,7 +281,8 @@ P = {
   declined="end-to-end CLI behaviour (click parsing)",
   technique="key-normalisation dataflow + decision table + handler discipline"),
 "C31": dict(
-  decided={"C31.a": "obligation O5: an output file opened for writing is removed on every exceptional exit up to gen_file (or written via temp + os.replace)"},
+  decided={"C31.a": "obligation O5: an output file opened for writing is removed on every exceptional exit up to gen_file (or written via temp + os.replace)",
+           "C31.b": "the handler removing the partial output is catch-all"},
   declined="nothing else",
   technique="obligation ledger over exceptional exits"),
 "C32": dict(
